@@ -504,6 +504,7 @@ func (fv *funcVerifier) doReturn(st *State, x *ast.ReturnStmt, pos token.Pos) {
 		fv.runDeferred(st, call, guard)
 	}
 	fv.exits = append(fv.exits, st.clone())
+	fv.exitAssume = append(fv.exitAssume, len(fv.assumptions))
 	st.live = smt.False
 }
 
@@ -519,14 +520,14 @@ func (fv *funcVerifier) runDeferred(st *State, call *ast.CallExpr, guard smt.Ter
 			fv.note("deferred function with recover(): panics in this function are intercepted; nopanic obligations still reported")
 		}
 		saveDefers, saveGuards := fv.defers, fv.deferGuards
-		saveExits := fv.exits
-		fv.defers, fv.deferGuards, fv.exits = nil, nil, nil
+		saveExits, saveExitAssume := fv.exits, fv.exitAssume
+		fv.defers, fv.deferGuards, fv.exits, fv.exitAssume = nil, nil, nil, nil
 		inLit := fv.inDeferLit
 		fv.inDeferLit = true
 		fv.execBlock(run, lit.Body.List)
 		run = fv.mergeAll(run, fv.exits)
 		fv.inDeferLit = inLit
-		fv.defers, fv.deferGuards, fv.exits = saveDefers, saveGuards, saveExits
+		fv.defers, fv.deferGuards, fv.exits, fv.exitAssume = saveDefers, saveGuards, saveExits, saveExitAssume
 	} else {
 		fv.evalCall(run, call)
 	}
@@ -551,8 +552,8 @@ var _ = fmt.Sprintf
 // inlineFuncLit executes the body of a parameterless function literal in st.
 func (fv *funcVerifier) inlineFuncLit(st *State, lit *ast.FuncLit) {
 	saveDefers, saveGuards, saveExits := fv.defers, fv.deferGuards, fv.exits
-	saveLoops := fv.loops
-	fv.defers, fv.deferGuards, fv.exits, fv.loops = nil, nil, nil, nil
+	saveLoops, saveExitAssume := fv.loops, fv.exitAssume
+	fv.defers, fv.deferGuards, fv.exits, fv.loops, fv.exitAssume = nil, nil, nil, nil, nil
 	inLit := fv.inDeferLit
 	fv.inDeferLit = true
 	fv.execBlock(st, lit.Body.List)
@@ -561,7 +562,7 @@ func (fv *funcVerifier) inlineFuncLit(st *State, lit *ast.FuncLit) {
 	}
 	merged := fv.mergeAll(&State{live: smt.False}, fv.exits)
 	fv.inDeferLit = inLit
-	fv.defers, fv.deferGuards, fv.exits, fv.loops = saveDefers, saveGuards, saveExits, saveLoops
+	fv.defers, fv.deferGuards, fv.exits, fv.loops, fv.exitAssume = saveDefers, saveGuards, saveExits, saveLoops, saveExitAssume
 	if merged != nil && !merged.dead() {
 		*st = *merged
 	} else {
